@@ -1010,7 +1010,7 @@ class TxOut:
     @classmethod
     def to_address(cls, address, amount):
         """Takes an address and an amount and makes a TxOut object"""
-        if address.startswith("bc1") or address.startswith("tb1"):
+        if address.startswith(("bc1", "tb1", "bcrt1")):
             _, version, h = decode_bech32(address)
             if version == 0:
                 if len(h) == 20:
